@@ -262,3 +262,26 @@ mut("c01-district-never-recovered", "C01", [(CDF, "        if \"district\" in ag
 ben("c01-merge-keys-explicit", ["C01"], [(MRF, "            key_columns = [col for col in self.estimates[agg][0].columns if col in AGGREGATE_ORDER]\n            merge_on = key_columns + [\"reporting\"]", "            merge_on = [col for col in self.estimates[agg][0].columns if col in AGGREGATE_ORDER] + [\"reporting\"]")])
 ben("c01-assign-order", ["C01"], [(BE, "                        results_col: lambda x: x[f\"results_{estimand}_expected\"] + x[f\"results_{estimand}_unexpected\"],\n                        reporting_col: lambda x: x[\"reporting_expected\"] + x[\"reporting_unexpected\"],", "                        reporting_col: lambda x: x[\"reporting_unexpected\"] + x[\"reporting_expected\"],\n                        results_col: lambda x: x[f\"results_{estimand}_unexpected\"] + x[f\"results_{estimand}_expected\"],")])
 ben("c01-helper-local", ["C01"], [(BE, "        aggregate_votes = self._get_reporting_aggregate_votes(reporting_units, unexpected_units, aggregate, estimand)\n\n        # these are subunits that are not already counted", "        counted = self._get_reporting_aggregate_votes(reporting_units, unexpected_units, aggregate, estimand)\n        aggregate_votes = counted\n\n        # these are subunits that are not already counted")])
+
+# ------------------------------------------------------------------------------------------- C02
+NPF = M + "NonparametricElectionModel.py"
+GEF = M + "GaussianElectionModel.py"
+mut("c02-pred-uses-results-only", "C02", [(BE, "f\"pred_{estimand}\": lambda x: x[f\"results_{estimand}\"] + x[f\"pred_only_{estimand}\"],", "f\"pred_{estimand}\": lambda x: x[f\"results_{estimand}\"] + x[f\"results_only_{estimand}\"],")], "C02.R1")
+mut("c02-pred-rename-swapped", "C02", [(BE, "                f\"pred_{estimand}\": f\"pred_only_{estimand}\",\n                f\"results_{estimand}\": f\"results_only_{estimand}\",", "                f\"pred_{estimand}\": f\"results_only_{estimand}\",\n                f\"results_{estimand}\": f\"pred_only_{estimand}\",")], "C02.R1")
+mut("c02-pred-only-not-filled", "C02", [(BE, "                    f\"pred_only_{estimand}\": 0,\n", "")], "C02.R1")
+mut("c02-np-lower-uses-upper", "C02", [(NPF, ".rename(columns={lower_string: f\"pi_lower_{estimand}\", upper_string: f\"pi_upper_{estimand}\"})[", ".rename(columns={upper_string: f\"pi_lower_{estimand}\", lower_string: f\"pi_upper_{estimand}\"})[")], "C02.R2")
+mut("c02-np-merge-left", "C02", [(NPF, "aggregate_votes.merge(aggregate_prediction_intervals, how=\"outer\", on=aggregate)", "aggregate_votes.merge(aggregate_prediction_intervals, how=\"left\", on=aggregate)")], "C02.R3")
+mut("c02-np-merge-inner", "C02", [(NPF, "aggregate_votes.merge(aggregate_prediction_intervals, how=\"outer\", on=aggregate)", "aggregate_votes.merge(aggregate_prediction_intervals, how=\"inner\", on=aggregate)")], "C02.R3")
+mut("c02-np-no-sort", "C02", [(NPF, "            .sort_values(aggregate)[aggregate + [\"lower\", \"upper\"]]\n            .reset_index(drop=True)", "            .sort_values(aggregate, ascending=False)[aggregate + [\"lower\", \"upper\"]]\n            .reset_index(drop=True)")], "C02.R3")
+mut("c02-np-no-reset-index", "C02", [(NPF, "            .sort_values(aggregate)[aggregate + [\"lower\", \"upper\"]]\n            .reset_index(drop=True)\n        )", "            .sort_values(aggregate)[aggregate + [\"lower\", \"upper\"]]\n        )")], "C02.R3")
+mut("c02-np-fill-missing", "C02", [(NPF, ".fillna({f\"results_{estimand}\": 0, f\"pi_lower_{estimand}\": 0, f\"pi_upper_{estimand}\": 0})", ".fillna({f\"pi_lower_{estimand}\": 0, f\"pi_upper_{estimand}\": 0})")], "C02.R2")
+mut("c02-np-args-swapped", "C02", [(NPF, "return PredictionIntervals(aggregate_data.lower.round(decimals=0), aggregate_data.upper.round(decimals=0))", "return PredictionIntervals(aggregate_data.upper.round(decimals=0), aggregate_data.lower.round(decimals=0))")], "C02.R5")
+mut("c02-np-not-rounded", "C02", [(NPF, "return PredictionIntervals(aggregate_data.lower.round(decimals=0), aggregate_data.upper.round(decimals=0))", "return PredictionIntervals(aggregate_data.lower, aggregate_data.upper.round(decimals=0))")], "C02.R2")
+mut("c02-gauss-merge-left", "C02", [(GEF, "aggregate_votes.merge(aggregate_prediction_intervals, how=\"outer\", on=aggregate)", "aggregate_votes.merge(aggregate_prediction_intervals, how=\"left\", on=aggregate)")], "C02.R3")
+ben("c02-gauss-no-sort", ["C02"], [(GEF, "            .sort_values(aggregate)[aggregate + [\"lower\", \"upper\"]]\n            .reset_index(drop=True)", "            [aggregate + [\"lower\", \"upper\"]]\n            .reset_index(drop=True)")])  # outer merge already sorts by the keys
+mut("c02-pred-table-no-sort", "C02", [(BE, "            .sort_values(aggregate)[aggregate + [f\"pred_{estimand}\", f\"results_{estimand}\", \"reporting\"]]\n            .reset_index(drop=True)", "            [aggregate + [f\"pred_{estimand}\", f\"results_{estimand}\", \"reporting\"]]\n            .sort_values(f\"pred_{estimand}\").reset_index(drop=True)")], "C02")
+mut("c02-positions-swapped", "C02", [(MRF, "            estimates_df[f\"lower_{alpha}_{estimand}\"] = agg_interval_predictions[alpha][0]\n            estimates_df[f\"upper_{alpha}_{estimand}\"] = agg_interval_predictions[alpha][1]", "            estimates_df[f\"lower_{alpha}_{estimand}\"] = agg_interval_predictions[alpha][1]\n            estimates_df[f\"upper_{alpha}_{estimand}\"] = agg_interval_predictions[alpha][0]")], "C02.R5")
+mut("c02-namedtuple-order", "C02", [(CF, 'PredictionIntervals = namedtuple("PredictionIntervals", ["lower", "upper", "conformalization"], defaults=(None,) * 3)', 'PredictionIntervals = namedtuple("PredictionIntervals", ["upper", "lower", "conformalization"], defaults=(None,) * 3)')], "C02.R5")
+mut("c02-boot-pred-not-divided", "C02", [(BS, "raw_margin_df[\"pred_margin\"] = np.nan_to_num(raw_margin_df.pred_margin / aggregate_z_total).reshape(-1, 1)", "raw_margin_df[\"pred_margin\"] = np.nan_to_num(raw_margin_df.pred_margin / (aggregate_z_total + 1)).reshape(-1, 1)")], "C02.R4")
+mut("c02-boot-group-key-order", "C02", [(BS, "            aggregate_temp_column_name = \"-\".join(aggregate)\n            all_units[aggregate_temp_column_name] = all_units[aggregate].agg(\"_\".join, axis=1)\n            dummies = pd.get_dummies(all_units[aggregate_temp_column_name])\n        else:\n            # since aggregate is of length zero", "            aggregate_temp_column_name = \"-\".join(aggregate)\n            all_units[aggregate_temp_column_name] = all_units[aggregate[::-1]].agg(\"_\".join, axis=1)\n            dummies = pd.get_dummies(all_units[aggregate_temp_column_name])\n        else:\n            # since aggregate is of length zero")], "C02.R3")
+ben("c02-lower-upper-assign-swapped-order", ["C02"], [(NPF, "                lower=lambda x: x[f\"pi_lower_{estimand}\"] + x[f\"results_{estimand}\"],\n                upper=lambda x: x[f\"pi_upper_{estimand}\"] + x[f\"results_{estimand}\"],", "                upper=lambda x: x[f\"results_{estimand}\"] + x[f\"pi_upper_{estimand}\"],\n                lower=lambda x: x[f\"results_{estimand}\"] + x[f\"pi_lower_{estimand}\"],")])
